@@ -22,6 +22,15 @@ bool known_f5_toplevel_vector_unlimited_stream(int in_kind) {
   return f5_affected<T>::value && in_is_unlimited_stream(in_kind);
 }
 
+// F7 (finding of this target): an object that was already sized / serialized while one of its
+// COMPLEX members (per-field cached size) was non-empty is serialized again after that member
+// became empty: calculate_serialized_size_field returns before it refreshes the field cache.
+bool known_f7_stale_field_cache(const std::vector<bool>& before, const std::vector<bool>& after) {
+  for (size_t i = 0; i < before.size() && i < after.size(); i++)
+    if (!before[i] && after[i]) return true;
+  return false;
+}
+
 void emit_seed(int root, const std::string& bytes) {
   static const char* dir = getenv("VF_C11_EMIT_SEEDS");
   static int emitted = 0;
@@ -61,11 +70,11 @@ void check_value(const T& v, Gen& g, const Pattern& pout, const Pattern& pin, st
   else if (ref.empty()) vfz::label("bytes==0");
   // ---- every input presentation into a fresh object
   for (int ik = 0; ik < IN_KINDS; ik++) {
-    if (known_f5_toplevel_vector_unlimited_stream<T>(ik) && !allow_known()) {
+    if (known_f5_toplevel_vector_unlimited_stream<T>(ik) && !allow_known("f5")) {
       vfz::label("excluded_known_f5");
       continue;
     }
-    if (g.scalar_ptr_elem_null) vfz::label("allowed_known_f7");
+    if (g.scalar_ptr_elem_null) vfz::label("allowed_known_f8");
     auto fresh = std::make_unique<Holder<T>>();
     bool success = parse_with(ik, pin, ref, fresh->get());
     if (!success) vfz::fail(desc, "%s (chunks %s) rejected the bytes produced by serialize: %s", in_name(ik), pin.str().c_str(), hex(ref).c_str());
@@ -91,11 +100,30 @@ void run_root(vfz::Dec& d, int root, const uint8_t* data, size_t size) {
   std::string last;
   for (int round = 0; round < rounds; round++) {
     Gen g(d);
+    std::vector<bool> before, after;
+    complex_member_emptiness(v, before);
+    size_t rewind = d.i;
     fill(v, g);  // in place: cached sizes left in aggregates by the previous round stay behind
+    complex_member_emptiness(v, after);
+    T* subject = &v;
+    std::unique_ptr<Holder<T>> clean;
+    if (round && known_f7_stale_field_cache(before, after)) {
+      if (allow_known("f7")) {
+        vfz::label("allowed_known_f7");
+      } else {
+        // same value, but in a fresh object (no stale caches), so the value itself is still checked
+        vfz::label("excluded_known_f7");
+        clean = std::make_unique<Holder<T>>();
+        d.i = rewind;
+        Gen again(d);
+        fill(clean->get(), again);
+        subject = &clean->get();
+      }
+    }
     last.clear();
-    show(v, last);
+    show(*subject, last);
     desc += (round ? " | refill in place: " : " value ") + last;
-    check_value(v, g, pout, pin, desc, root);
+    check_value(*subject, g, pout, pin, desc, root);
     if (g.nkinds() >= 3 && g.nested_ld) nt = true;
     if (g.budget < 50000) vfz::label("amplified_payload");
     if (g.kinds & (1u << K_PTR)) vfz::label("has_nonnull_ptr");
